@@ -114,6 +114,23 @@ def check(src, config, keep_body, case, ranges=()):
             l_in, out = c01.minify_lib([src], args)
         except Exception as e:
             raise Violation('minifying a valid program raised %r -- %s' % (e, show(src, 200)), case, 'raises')
+        if case.get('via') == 'file_p8':
+            # through the .p8 formatter (which runs the writer twice: once to sanity-check, once to write)
+            from pico8.game import file as pfile
+            from vlib import cartgen, reffmt
+            try:
+                g = cartgen.make_game(bytes(0x4300), code=src)
+                outp = os.path.join(td, 'out.p8')
+                pfile.to_file(g, outp, lua_writer_cls=plua.LuaMinifyTokenWriter, lua_writer_args=args)
+                out_file = reffmt.read_p8(open(outp, 'rb').read())['code']
+            except Exception as e:
+                raise Violation('file.to_file(.p8, LuaMinifyTokenWriter) raised %r -- %s' % (e, show(src, 200)),
+                                case, 'raises')
+            want = out if out.endswith(b'\n') or not out else out + b'\n'
+            if out_file != (want or b'\n'):
+                raise Violation('the minified code written to a .p8 file differs from the writer\'s own output: '
+                                'file %s -- direct %s -- input %s' % (show(out_file, 120), show(out, 120), show(src, 120)),
+                                case, 'file-vs-direct')
     want_prefix = b''.join(t.text + b'\n' for t in hdr[:2])
     if not out.startswith(want_prefix):
         raise Violation('luamin output does not start with the first two header comments verbatim, each on its own '
@@ -176,9 +193,15 @@ def part_headers(ctx):
             ctx.stats.exclude('header_relexed_differently')
             return
         case = {'source': src, 'config': config, 'keep': keep_body}
+        if seed[1] % 4 == 0 and b'#include' not in src:
+            case['via'] = 'file_p8'
         hdr, ref_in = check(src, config, keep_body, case, c01.scoped_ranges(lay.kept))
         later = sum(1 for t in ref_in if t.kind == 'comment') - len(hdr)
         labs = ['header_%d' % min(len(hdr), 4), 'cfg_' + config]
+        if case.get('via'):
+            labs.append('via_file_p8')
+            if not src.endswith(b'\n'):
+                labs.append('via_file_p8_no_final_newline')
         if any(t.text.startswith(b'//') for t in hdr[:2]):
             labs.append('slash_header')
         if any(t.text.startswith(b'--[[') for t in hdr[:2]):
@@ -209,12 +232,15 @@ def fixed_shapes():
     yield b'-- only comments\n-- here\n-- three\n'
     yield b'--\n--\nx=1\n'
     yield b'-- t\nx=1 ?"s"\n-- c\nif (x) y=1 -- eol\nz=2\n'
+    yield b'-- title\n-- author\nx=1'
+    yield b'-- title\n-- author\nd = hi - --[[why]] -lo\n'
 
 
 def part_fixed(ctx):
     for src in fixed_shapes():
         for config in ('default', 'keep_all'):
             hdr, ref_in = check(src, config, b'', {'source': src, 'config': config, 'keep': b''})
+            check(src, config, b'', {'source': src, 'config': config, 'keep': b'', 'via': 'file_p8'})
             ctx.stats.case(src + config.encode(), len(hdr) >= 1, {'source': show(src, 100)}, ['fixed_shape'])
 
 
@@ -231,7 +257,7 @@ def replay(case):
 def vacuity(total, tier):
     msgs = []
     for lab in ('header_0', 'header_1', 'header_2', 'header_3', 'slash_header', 'block_header', 'multiline_header',
-                'later_comments', 'blank_before_header', 'cfg_keep_file'):
+                'later_comments', 'blank_before_header', 'cfg_keep_file', 'via_file_p8', 'via_file_p8_no_final_newline'):
         if total.classes.get(lab, 0) < 5:
             msgs.append('class %s seen %d times' % (lab, total.classes.get(lab, 0)))
     return msgs
